@@ -181,8 +181,10 @@ def main(argv=None):
     inconclusive = []
     dead = [r for r in results if r['result'] is None or r['rc'] != 0]
     for r in dead:
+        tail = [ln for ln in (r['stderr'] or '').strip().split('\n')
+                if ln.strip() and not set(ln.strip()) <= set('^~ ')]
         inconclusive.append('shard %d ended rc=%s: %s' % (
-            r['shard'], r['rc'], (r['stderr'] or '').strip()[-600:]))
+            r['shard'], r['rc'], ' / '.join(tail[-3:])[-400:]))
 
     # ---- classify discrepancies ----------------------------------------
     known = [k for k in load_known()
